@@ -14,9 +14,10 @@ import (
 // caller W that finds the limit reached and waits in the backlog WITH its backlog timer armed (the
 // timer may fire at any moment: the give-up can race with the hand-off at every point), and the
 // holder R completing with an arbitrary outcome, all interleavings.  At quiescence:
-//   C02: W returned a listener iff ok; a W that was refused holds no capacity (strategy busy and the
-//        limiter gauge equal the tokens actually owned by a caller), nothing is left in flight;
-//   C12: the backlog is empty once W has returned (granted or timed out) and its reported size is 0.
+//
+//	C02: W returned a listener iff ok; a W that was refused holds no capacity (strategy busy and the
+//	     limiter gauge equal the tokens actually owned by a caller), nothing is left in flight;
+//	C12: the backlog is empty once W has returned (granted or timed out) and its reported size is 0.
 func verifGiveUpRace(tag string) {
 	inner, st := verifFullLimiter()
 	q := NewQueueBlockingLimiterFromConfig(inner, QueueLimiterConfig{Ordering: OrderingFIFO, MaxBacklogSize: 10, MaxBacklogTimeout: time.Second})
@@ -56,8 +57,10 @@ func VerifC12_Queue_GiveUpRace() { verifGiveUpRace("c12") }
 // environment cancels at an arbitrary instant (or never); R completes with an arbitrary outcome; all
 // interleavings, timers off (the only ways out of the wait are the wake-up and the cancellation).
 // At quiescence, whenever W has returned:
-//   a listener iff ok; a refused W holds no capacity: strategy busy and the limiter gauge equal the
-//   number of tokens owned by a caller (R's is completed, so 1 iff W was granted).
+//
+//	a listener iff ok; a refused W holds no capacity: strategy busy and the limiter gauge equal the
+//	number of tokens owned by a caller (R's is completed, so 1 iff W was granted).
+//
 // A W that is still blocked (lost wake-up without cancellation) is C10's subject, not asserted here.
 func verifCancelRace(kind int) {
 	inner, st := verifFullLimiter()
